@@ -497,7 +497,8 @@ theorem truth_inner (s : Stage) (k : ExcKind) (b : Bool) (co ro : Option ExcKind
 
 /-! ### reading a row of the table -/
 
-theorem run_row (F : Facts14) (htable : allRows.all (rowOk F) = true) (c : Cfg) (inj : Inj)
+theorem run_row (F : Facts14) (htable : allRows.all (rowOk F) = true)
+    (hsig : ∀ sg pc, F.proc sg pc = F.proc .single pc) (c : Cfg) (inj : Inj)
     (co ro : Option ExcKind) :
     let r := run F c inj co ro
     let tr := truth inj co ro
@@ -508,10 +509,11 @@ theorem run_row (F : Facts14) (htable : allRows.all (rowOk F) = true) (c : Cfg) 
   have h := row_of_table F htable
     ⟨F.leavesNone c.outp (effShape c inj), F.leavesNoneFault c.outp, c.transport, inj.stage, inj.kind, co, ro⟩
   obtain ⟨v1, v2, v3⟩ := views_fill F c inj.inner (skelOf F c inj co ro).steps
+  have hP : F.proc c.sig = F.proc .single := funext (hsig c.sig)
   obtain ⟨st, k, b⟩ := inj
   simp only [rowOk, Bool.and_eq_true, Bool.or_eq_true, beq_iff_eq] at h
   obtain ⟨⟨h1, h2⟩, h3⟩ := h
-  simp only [run, skelOf, truth_inner st k b] at v1 v2 v3 ⊢
+  simp only [run, skelOf, truth_inner st k b, hP] at v1 v2 v3 ⊢
   refine ⟨h1, ?_, ?_⟩
   · simpa [descScopeOk, v2] using h2
   · intro hne
